@@ -114,7 +114,8 @@ def run(ctx):
                     "match_qtype(question.qtype); R2 additional records come only from get_domain_resources(srv.target, authoritative(false)) "
                     "filtered by (A or AAAA) AND the question class; R3 the reply is new_reply(query id), the unicast flag is set only under "
                     "question.unicast_response and None is returned iff no answer was pushed; R4 trie keys keep label boundaries; "
-                    "R5 registering a record stores it as Authoritative unconditionally (replacing a cached copy).")
+                    "R5 registering a record stores it as Authoritative unconditionally (replacing a cached copy); R6 remove_resource_record "
+                    "removes the given record only (the owner's node is dropped only once its map is empty).")
     b = ctx.must_find(report, "simple_mdns::build_reply")
     gk = ctx.must_find(report, "simple_mdns::resource_record_manager::get_key")
     if b is None or gk is None:
@@ -397,6 +398,13 @@ def run(ctx):
             viol(report, "C13-R5", aa, "registration", "add_authoritative_resource does not unconditionally store the record as Authoritative in "
                  "both the existing-name and new-name paths (%d insert calls, non-replacing calls %s): a record that was cached before "
                  "being registered stays Cached and is left out of replies" % (len(insa), [t["callee"]["name"] for _, t in soft]))
+    # ---- R6 removing a record removes that record only (every other registered record stays answerable)
+    import c20
+    rm = prog.find("simple_mdns::ResourceRecordManager::remove_resource_record")
+    if rm is None:
+        report.lost_anchor("ResourceRecordManager::remove_resource_record")
+    else:
+        c20.removal_precision(ctx, report, "C13-R6", rm)
     report.assumptions += ["that trie lookup is label-wise equality / subdomain for all stores is not decided (value-level); R4 is a necessary condition",
                            "match_qtype / match_qclass are C18-R4"]
     return report.finish()
